@@ -25,6 +25,7 @@ LIBRARY = [
     ['def mutate(lst):', '    lst.append(99)', '    return lst'],
     ['def init_state(v):', '    global state_box', '    state_box = [v, v]', '    return len(state_box)'],
     ['def read_state():', '    return state_box[0]'],
+    ['def apply_fn(f, x):', "    print('applying')", '    r = f(x, x)', "    print('applied')", '    return r'],
     ['counter = 0'],
     ['def tick():', '    global counter', '    counter += 1', '    return counter'],
 ]
@@ -90,7 +91,7 @@ def gen_snippet(r, idx):
 
 
 def gen_history(rngs, n_ops, fault_rate=0.3, fault_classes=None, io_ops=True, size=None, threaded_rate=0.0,
-                exotic_args=True, before_after=False):
+                exotic_args=True, before_after=False, nested_calls=False):
     from sim import seeds
     r = rngs[seeds.OPS]
     rf = rngs[seeds.FAULTS]
@@ -137,6 +138,9 @@ def gen_history(rngs, n_ops, fault_rate=0.3, fault_classes=None, io_ops=True, si
                 op['target'] = r.choice(['result_box', 'answer_value', '_'])
             if r.random() < 0.15:
                 op['inputs'] = [r.choice(['in1', '7'])]
+        elif nested_calls and c < 0.66:
+            # the instructor hands a sandbox function back to student code as a callback: executions nest
+            op = {'op': 'call', 'fn': 'apply_fn', 'args_src': ['@fn:' + r.choice(['quiet', 'kw']), repr(r.randint(0, 5))]}
         elif c < 0.74:
             fn = r.choice(['quiet(1, 2)', 'chatty(2)', 'boom(0)', 'boom(5)', 'tick()', "noeol('e')", 'counter',
                            "ask('<<e1>>')", '1 + 1', "echo('v')", 'swallow(0)', "writer('raw')", '[tick(), tick()]'])
